@@ -127,3 +127,18 @@ Proof.
   destruct (c_variant (m_cfg m1)); try discriminate. destruct (c_variant (m_cfg m2)); try discriminate.
   injection A as <-. injection B as <-. exact Hnp.
 Qed.
+
+(* ---- two successive responses to one client ARE two moments of one write history: every two-moment theorem of
+   C04 (Proofs/MuxPlaylist.v, Section TwoMoments, and Props/C04.v) applies to what a client sees under a concurrent
+   writer ---- *)
+Theorem muxer_views_two_moments (Rsp : Type) (gen : mstate -> Rsp) c m0 evs r l1 e1 e2 l2 :
+  start c = Ok m0 ->
+  of_requester Rsp r (responses mstate Rsp gen m0 (steps_of m0 evs)) = l1 ++ e1 :: e2 :: l2 ->
+  exists ops1 ops2 m1 m2,
+    (exists m00, start c = Ok m00 /\ m1 = mux_run m00 ops1) /\ m2 = mux_run m1 ops2
+    /\ snd e1 = gen m1 /\ snd e2 = gen m2.
+Proof.
+  intros Hs H. destruct (muxer_views_in_order Rsp gen m0 evs r l1 e1 e2 l2 H) as (ops1 & ops2 & G1 & G2).
+  exists ops1, ops2, (mux_run m0 ops1), (mux_run (mux_run m0 ops1) ops2).
+  split; [eauto|]. split; [reflexivity|]. split; [exact G1|]. now rewrite <- mux_run_app.
+Qed.
